@@ -137,7 +137,7 @@ def check(ctx):
     for pat in (r"ScannerImpl as std::convert::TryFrom<std::vec::Vec<scanner_mode::ScannerMode>>>::try_from$", r"ScannerImpl as std::convert::TryFrom<&\[scanner_mode::ScannerMode\]>>::try_from$"):
         fn = F.fn(pat)
         ctx.analysed_fn(fn)
-        ex, paths = run_fn(fn, F, BaseModel(), max_paths=5000)
+        ex, paths = run_fn(fn, F, BaseModel(), max_paths=5000, desugar=r".|collect")
         seen = set()
         tag = "Vec" if "Vec" in pat else "slice"
         for p in paths:
